@@ -6,7 +6,7 @@ gmx.itp_read.read_itp (ITPDirector).
 """
 import itertools
 
-from engine.common import ok, no_tracing, open_findings
+from engine.common import ok, no_tracing, open_findings, concretize
 
 PART = {}
 
@@ -359,6 +359,13 @@ def check_weights(n_p: int, n_q: int, n_null: int) -> str:
     """
     # backward-style .map line for atom A: target P written n_p times, Q n_q times, R marked null ('!R') n_null times;
     # atom B maps once to P.  Weights reflect the multiplicity (n / sum n) and '!' gives weight 0.
+    n_p, n_q, n_null = concretize(n_p), concretize(n_q), concretize(n_null)      # multiplicities are list lengths: one value per path
+    with no_tracing():          # everything is concrete now; native run (CrossHair's Counter/float proxies gave a non-replaying model)
+        res = _weights_body(n_p, n_q, n_null)
+    return res if res else ok()
+
+
+def _weights_body(n_p, n_q, n_null):
     from vermouth.map_input import _compute_weights
     targets = ['P'] * n_p + ['Q'] * n_q + ['!R'] * n_null
     weights = _compute_weights({'A': targets, 'B': ['P']}, 'mol')
@@ -380,7 +387,7 @@ def check_weights(n_p: int, n_q: int, n_null: int) -> str:
         for atom, w in atoms.items():
             if abs(got[bead][atom] - w) > 1e-9:
                 return 'mapping weight does not reflect the multiplicity / null marker written'
-    return ok()
+    return ''
 
 
 def warmup():
